@@ -61,305 +61,166 @@ func v2stdSub(sec byte, s uint8) bool {
 	return s >= 1 && s <= 0x0a
 }
 
-// proprietary data and unknowns of one section
-func v2wfExtra(sec byte, props []psetv2.ProprietaryData, unks []psetv2.KeyPair) string {
-	for _, pd := range props {
-		switch {
-		case !bytes.Equal(pd.Identifier, []byte("pset")):
-			return "proprietary-identifier"
-		case v2stdSub(sec, pd.Subtype):
-			return "proprietary-subtype-collision"
-		case 1+5+1+len(pd.KeyData) > v2MaxKey:
-			return "key-size"
+// v2wfAll lists every clause of wf_pset the packet breaks (none: the wire format can represent it).
+func v2wfAll(p *psetv2.Pset) (l []string) {
+	bad := func(c bool, why string) {
+		if c {
+			l = append(l, why)
 		}
 	}
-	for _, u := range unks {
-		switch {
-		case u.Key.KeyType == 0xfc || v2stdType(sec, u.Key.KeyType):
-			return "unknown-keytype-collision"
-		case 1+len(u.Key.KeyData) > v2MaxKey:
-			return "key-size"
+	pset := []byte("pset")
+	extra := func(sec byte, props []psetv2.ProprietaryData, unks []psetv2.KeyPair) { // proprietary data and unknowns
+		for _, pd := range props {
+			bad(!bytes.Equal(pd.Identifier, pset), "proprietary-identifier")
+			bad(bytes.Equal(pd.Identifier, pset) && v2stdSub(sec, pd.Subtype), "proprietary-subtype-collision")
+			bad(1+len(v2vs(pset))+1+len(pd.KeyData) > v2MaxKey, "key-size")
+		}
+		for _, u := range unks {
+			bad(u.Key.KeyType == 0xfc || v2stdType(sec, u.Key.KeyType), "unknown-keytype-collision")
+			bad(1+len(u.Key.KeyData) > v2MaxKey, "key-size")
 		}
 	}
-	return ""
-}
-
-func v2wfDerivs(l []psetv2.DerivationPathWithPubKey) string {
-	var keys [][]byte
-	for _, d := range l {
-		switch {
-		case !v2pkOK(d.PubKey):
-			return "bip32-pubkey"
-		case len(d.Bip32Path) < 1:
-			return "empty-bip32-path"
+	derivs := func(l []psetv2.DerivationPathWithPubKey) {
+		var keys [][]byte
+		for _, d := range l {
+			bad(!v2pkOK(d.PubKey), "bip32-pubkey")
+			bad(len(d.Bip32Path) < 1, "empty-bip32-path")
+			keys = append(keys, d.PubKey)
 		}
-		keys = append(keys, d.PubKey)
+		bad(v2dupKey(keys), "bip32-duplicate")
 	}
-	if v2dupKey(keys) {
-		return "bip32-duplicate"
-	}
-	return ""
-}
-
-func v2wfInput(in *psetv2.Input) string {
-	switch {
-	case in.RequiredHeightLocktime != 0:
-		return "height-locktime"
-	case in.PeginValue != 0:
-		return "pegin-value"
-	case len(in.PreviousTxid) != 32:
-		return "length:PreviousTxid"
-	case !v2lenIs(in.IssuanceValueCommitment, 33) || !v2lenIs(in.IssuanceInflationKeysCommitment, 33):
-		return "length:issuance-commitment"
-	case !v2lenIs(in.PeginGenesisHash, 32) || !v2lenIs(in.IssuanceBlindingNonce, 32) || !v2lenIs(in.IssuanceAssetEntropy, 32) || !v2lenIs(in.ExplicitAsset, 32):
-		return "length:32"
-	case !v2lenIs(in.TapKeySig, 64, 65) || !v2lenIs(in.TapInternalKey, 32) || !v2lenIs(in.TapMerkleRoot, 32):
-		return "length:taproot"
-	}
-	if tx := in.NonWitnessUtxo; tx != nil {
-		b1, err := tx.Serialize()
-		if err != nil {
-			return "nonwitness-utxo"
-		}
-		tx2, err := transaction.NewTxFromBuffer(bytes.NewBuffer(v2cp(b1)))
-		if err != nil {
-			return "nonwitness-utxo"
-		}
-		if b2, err := tx2.Serialize(); err != nil || !bytes.Equal(b1, b2) {
-			return "nonwitness-utxo"
-		}
-	}
-	if in.WitnessUtxo != nil {
-		enc := v2encTxOut(in.WitnessUtxo)
-		if len(enc) < 45 {
-			return "witness-utxo<45"
-		}
-		if o, ok := v2decTxOut(enc); !ok || !bytes.Equal(v2encTxOut(o), enc) {
-			return "witness-utxo"
-		}
-	}
-	if in.PeginTx != nil {
-		enc := v2encMsgTx(in.PeginTx)
-		if tx, ok := v2decMsgTx(enc); !ok || !bytes.Equal(v2encMsgTx(tx), enc) {
-			return "pegin-tx"
-		}
-	}
-	var keys [][]byte
-	for _, s := range in.PartialSigs {
-		if !v2pkOK(s.PubKey) || !v2derOK(s.Signature) {
-			return "partial-sig"
-		}
-		if 1+len(s.PubKey) > v2MaxKey {
-			return "key-size"
-		}
-		keys = append(keys, s.PubKey)
-	}
-	if v2dupKey(keys) {
-		return "partial-sig-duplicate"
-	}
-	if why := v2wfDerivs(in.Bip32Derivation); why != "" {
-		return why
-	}
-	keys = nil
-	for _, s := range in.TapScriptSig {
-		kd := v2cat(s.PubKey, s.LeafHash)
-		if len(kd) != 64 || !v2lenIs(s.Signature, 64, 65) || len(s.Signature) == 0 {
-			return "tap-script-sig"
-		}
-		keys = append(keys, kd[:32])
-	}
-	if v2dupKey(keys) {
-		return "tap-script-sig-duplicate"
-	}
-	for _, l := range in.TapLeafScript {
-		if l.ControlBlock.InternalKey == nil {
-			return "tap-leaf"
-		}
-		cb, err := l.ControlBlock.ToBytes()
-		if err != nil || len(cb) < 33 || (len(cb)-33)%32 != 0 || len(cb) > 33+32*128 {
-			return "tap-leaf"
-		}
-		if _, err := schnorr.ParsePubKey(cb[1:33]); err != nil {
-			return "tap-leaf"
-		}
-		if byte(l.LeafVersion) != cb[0]&0xfe {
-			return "tap-leaf-version"
-		}
-	}
-	keys = nil
-	for _, d := range in.TapBip32Derivation {
-		if len(d.PubKey) != 33 {
-			return "tap-bip32-pubkey"
-		}
-		for _, h := range d.LeafHashes {
-			if len(h) != 32 {
-				return "tap-bip32-leaf-hash"
-			}
-		}
-		if len(d.Bip32Path) < 1 {
-			return "empty-bip32-path"
-		}
-		keys = append(keys, d.PubKey)
-	}
-	if v2dupKey(keys) {
-		return "tap-bip32-duplicate"
-	}
-	return v2wfExtra('i', in.ProprietaryData, in.Unknowns)
-}
-
-func v2wfOutput(o *psetv2.Output) string {
-	switch {
-	case !v2lenIs(o.ValueCommitment, 33) || !v2lenIs(o.AssetCommitment, 33) || !v2lenIs(o.Asset, 32):
-		return "length:output"
-	case len(o.BlindingPubkey) > 0 && !v2pkOK(o.BlindingPubkey), len(o.EcdhPubkey) > 0 && !v2pkOK(o.EcdhPubkey):
-		return "output-pubkey"
-	}
-	if why := v2wfDerivs(o.Bip32Derivation); why != "" {
-		return why
-	}
-	return v2wfExtra('o', o.ProprietaryData, o.Unknowns)
-}
-
-// v2wfWhy names the first clause of wf_pset that fails ("" when the packet is well formed).
-func v2wfWhy(p *psetv2.Pset) string {
 	g := &p.Global
-	if g.InputCount != uint64(len(p.Inputs)) || g.OutputCount != uint64(len(p.Outputs)) {
-		return "count-mismatch"
-	}
-	if len(p.Inputs) >= 253 || len(p.Outputs) >= 253 {
-		return "count>=253"
-	}
+	bad(g.InputCount != uint64(len(p.Inputs)) || g.OutputCount != uint64(len(p.Outputs)), "count-mismatch")
+	bad(len(p.Inputs) >= 253 || len(p.Outputs) >= 253, "count>=253")
 	for _, x := range g.Xpubs {
-		switch {
-		case len(x.ExtendedKey) != 78:
-			return "length:xpub"
-		case len(x.DerivationPath) < 1:
-			return "empty-bip32-path"
-		}
+		bad(len(x.ExtendedKey) != 78, "length:xpub")
+		bad(len(x.DerivationPath) < 1, "empty-bip32-path")
 	}
 	for _, s := range g.Scalars {
-		if len(s) != 32 {
-			return "length:scalar"
-		}
+		bad(len(s) != 32, "length:scalar")
 	}
-	if why := v2wfExtra('g', g.ProprietaryData, g.Unknowns); why != "" {
-		return why
-	}
+	extra('g', g.ProprietaryData, g.Unknowns)
 	for i := range p.Inputs {
-		if why := v2wfInput(&p.Inputs[i]); why != "" {
-			return why
+		in := &p.Inputs[i]
+		bad(in.RequiredHeightLocktime != 0, "height-locktime")
+		bad(in.PeginValue != 0, "pegin-value")
+		bad(len(in.PreviousTxid) != 32, "length:PreviousTxid")
+		bad(!v2lenIs(in.IssuanceValueCommitment, 33) || !v2lenIs(in.IssuanceInflationKeysCommitment, 33), "length:issuance-commitment")
+		bad(!v2lenIs(in.PeginGenesisHash, 32) || !v2lenIs(in.IssuanceBlindingNonce, 32) || !v2lenIs(in.IssuanceAssetEntropy, 32) ||
+			!v2lenIs(in.ExplicitAsset, 32), "length:32")
+		bad(!v2lenIs(in.TapKeySig, 64, 65) || !v2lenIs(in.TapInternalKey, 32) || !v2lenIs(in.TapMerkleRoot, 32), "length:taproot")
+		if tx := in.NonWitnessUtxo; tx != nil { // Serialize -> NewTxFromBuffer -> Serialize is the identity
+			b1, err1 := tx.Serialize()
+			tx2, err2 := transaction.NewTxFromBuffer(bytes.NewBuffer(v2cp(b1)))
+			bad(err1 != nil || err2 != nil, "nonwitness-utxo")
+			if err1 == nil && err2 == nil {
+				b2, err := tx2.Serialize()
+				bad(err != nil || !bytes.Equal(b1, b2), "nonwitness-utxo")
+			}
 		}
-	}
-	for i := range p.Outputs {
-		if why := v2wfOutput(&p.Outputs[i]); why != "" {
-			return why
+		if in.WitnessUtxo != nil { // readTxOut wants 45 bytes and gives the same output back
+			enc := v2encTxOut(in.WitnessUtxo)
+			o, ok := v2decTxOut(enc)
+			bad(len(enc) < 45, "witness-utxo<45")
+			bad(!ok || !bytes.Equal(v2encTxOut(o), enc), "witness-utxo")
 		}
+		if in.PeginTx != nil {
+			enc := v2encMsgTx(in.PeginTx)
+			tx, ok := v2decMsgTx(enc)
+			bad(!ok || !bytes.Equal(v2encMsgTx(tx), enc), "pegin-tx")
+		}
+		var keys [][]byte
+		for _, s := range in.PartialSigs {
+			bad(!v2pkOK(s.PubKey) || !v2derOK(s.Signature), "partial-sig")
+			keys = append(keys, s.PubKey)
+		}
+		bad(v2dupKey(keys), "partial-sig-duplicate")
+		derivs(in.Bip32Derivation)
+		keys = nil
+		for _, s := range in.TapScriptSig {
+			bad(len(s.PubKey)+len(s.LeafHash) != 64 || (len(s.Signature) != 64 && len(s.Signature) != 65), "tap-script-sig")
+			keys = append(keys, append(v2cat(s.PubKey, s.LeafHash), make([]byte, 32)...)[:32])
+		}
+		bad(v2dupKey(keys), "tap-script-sig-duplicate")
+		for _, l := range in.TapLeafScript {
+			var cb []byte
+			if l.ControlBlock.InternalKey != nil {
+				cb, _ = l.ControlBlock.ToBytes()
+			}
+			okLen := len(cb) >= 33 && (len(cb)-33)%32 == 0 && len(cb) <= 33+32*128
+			bad(!okLen, "tap-leaf")
+			if okLen {
+				_, err := schnorr.ParsePubKey(cb[1:33])
+				bad(err != nil, "tap-leaf")
+				bad(byte(l.LeafVersion) != cb[0]&0xfe, "tap-leaf-version")
+			}
+		}
+		keys = nil
+		for _, d := range in.TapBip32Derivation {
+			bad(len(d.PubKey) != 33, "tap-bip32-pubkey")
+			for _, h := range d.LeafHashes {
+				bad(len(h) != 32, "tap-bip32-leaf-hash")
+			}
+			bad(len(d.Bip32Path) < 1, "empty-bip32-path")
+			keys = append(keys, d.PubKey)
+		}
+		bad(v2dupKey(keys), "tap-bip32-duplicate")
+		extra('i', in.ProprietaryData, in.Unknowns)
 	}
-	if !v2sane(p) {
-		return "sanity"
+	for _, o := range p.Outputs {
+		bad(!v2lenIs(o.ValueCommitment, 33) || !v2lenIs(o.AssetCommitment, 33) || !v2lenIs(o.Asset, 32), "length:output")
+		bad((len(o.BlindingPubkey) > 0 && !v2pkOK(o.BlindingPubkey)) || (len(o.EcdhPubkey) > 0 && !v2pkOK(o.EcdhPubkey)), "output-pubkey")
+		derivs(o.Bip32Derivation)
+		extra('o', o.ProprietaryData, o.Unknowns)
 	}
-	return ""
+	bad(!v2sane(p), "sanity")
+	return
 }
 
 // wfPsetV2 mirrors Model/PsetV2.v wf_pset: the packets the wire format can represent.
-func wfPsetV2(p *psetv2.Pset) bool { return v2wfWhy(p) == "" }
+func wfPsetV2(p *psetv2.Pset) bool { return len(v2wfAll(p)) == 0 }
 
 // the library's own sanity checks
 func v2sane(p *psetv2.Pset) bool {
-	if p.Global.SanityCheck() != nil || p.SanityCheck() != nil {
-		return false
-	}
+	ok := p.Global.SanityCheck() == nil && p.SanityCheck() == nil
 	for i := range p.Inputs {
-		if p.Inputs[i].SanityCheck() != nil {
-			return false
-		}
+		ok = ok && p.Inputs[i].SanityCheck() == nil
 	}
 	for i := range p.Outputs {
-		if p.Outputs[i].SanityCheck() != nil {
-			return false
-		}
+		ok = ok && p.Outputs[i].SanityCheck() == nil
 	}
-	return true
+	return ok
 }
 
 // ---------- classification of a failure by the shape of the packet ----------
 
-type v2shape struct {
-	height, pegin, emptyPath, foreignID, subCollision, typeCollision bool
+func v2has(p *psetv2.Pset, why string) bool {
+	for _, w := range v2wfAll(p) {
+		if w == why {
+			return true
+		}
+	}
+	return false
 }
-
-func v2shapeOf(p *psetv2.Pset) (s v2shape) {
-	extra := func(sec byte, props []psetv2.ProprietaryData, unks []psetv2.KeyPair) {
-		for _, pd := range props {
-			if !bytes.Equal(pd.Identifier, []byte("pset")) {
-				s.foreignID = true
-			} else if v2stdSub(sec, pd.Subtype) {
-				s.subCollision = true
-			}
-		}
-		for _, u := range unks {
-			s.typeCollision = s.typeCollision || u.Key.KeyType == 0xfc || v2stdType(sec, u.Key.KeyType)
+func v2firstOf(p *psetv2.Pset, other string, whys ...string) string {
+	for _, w := range whys {
+		if v2has(p, w) {
+			return w
 		}
 	}
-	derivs := func(l []psetv2.DerivationPathWithPubKey) {
-		for _, d := range l {
-			s.emptyPath = s.emptyPath || len(d.Bip32Path) == 0
-		}
-	}
-	extra('g', p.Global.ProprietaryData, p.Global.Unknowns)
-	for _, x := range p.Global.Xpubs {
-		s.emptyPath = s.emptyPath || len(x.DerivationPath) == 0
-	}
-	for _, in := range p.Inputs {
-		s.height = s.height || in.RequiredHeightLocktime != 0
-		s.pegin = s.pegin || in.PeginValue != 0
-		derivs(in.Bip32Derivation)
-		for _, d := range in.TapBip32Derivation {
-			s.emptyPath = s.emptyPath || len(d.Bip32Path) == 0
-		}
-		extra('i', in.ProprietaryData, in.Unknowns)
-	}
-	for _, o := range p.Outputs {
-		derivs(o.Bip32Derivation)
-		extra('o', o.ProprietaryData, o.Unknowns)
-	}
-	return
+	return other
 }
-
 func v2rejectDetail(p *psetv2.Pset) string {
-	s := v2shapeOf(p)
-	switch {
-	case s.height:
-		return "height-locktime"
-	case p.Global.InputCount >= 253 || p.Global.OutputCount >= 253 || len(p.Inputs) >= 253 || len(p.Outputs) >= 253:
-		return "count>=253"
-	case s.emptyPath:
-		return "empty-bip32-path"
-	case !wfPsetV2(p):
-		return "bad-length"
+	other := "other"
+	if !wfPsetV2(p) {
+		other = "bad-length" // some other clause of wf_pset
 	}
-	return "other"
+	return v2firstOf(p, other, "height-locktime", "count>=253", "empty-bip32-path")
 }
 func v2fieldsDetail(p *psetv2.Pset) string {
-	s := v2shapeOf(p)
-	switch {
-	case s.height:
-		return "height-locktime"
-	case s.foreignID:
-		return "proprietary-identifier"
-	case s.subCollision:
-		return "proprietary-subtype-collision"
-	case s.typeCollision:
-		return "unknown-keytype-collision"
-	}
-	return "other"
+	return v2firstOf(p, "other", "height-locktime", "proprietary-identifier", "proprietary-subtype-collision", "unknown-keytype-collision")
 }
-func v2panicDetail(p *psetv2.Pset) string {
-	if v2shapeOf(p).pegin {
-		return "pegin-value"
-	}
-	return "other"
-}
+func v2panicDetail(p *psetv2.Pset) string { return v2firstOf(p, "other", "pegin-value") }
 
 // the dump compared across a round trip: a nil and an all-zero Modifiable mean the same
 func v2normDump(p *psetv2.Pset) string {
@@ -466,8 +327,8 @@ func checkC07Wf(t *Toks) string {
 	v2skipOracle(t)
 	p := readPsetV2(t)
 	res := "WF"
-	if why := v2wfWhy(p); why != "" {
-		res = "NOTWF " + why
+	if why := v2wfAll(p); len(why) > 0 {
+		res = "NOTWF " + why[0]
 	}
 	if v2multiMap(p) {
 		res += " multi-entry-map"
